@@ -155,3 +155,6 @@ func (c *vxCond) Broadcast() {
 }
 
 func (c *vxCond) Signal() { c.Broadcast() }
+
+// VxMutex: exported name for harness code of package cache (seam model map).
+type VxMutex = vxMutex
